@@ -166,8 +166,8 @@ ALL = {
              'precision, offset range, strptime/strftime, int, Decimal is explored; z3 shows STRICT-accepted => HL7 grammar, grammar => '
              'accepted, accepted => to_er7() == text (canonical numerics), TOLERANT never raises and keeps the text, over-long => '
              'MaxLengthReached - modulo the recorded library-leniency family. datatype_factory dispatches per version: full lengths in '
-             'v2.5, lengths up to 6 (thorough: full) in every other version that has the datatype. A boundary grid of 134 literals x every version '
-             '(1 345 points) runs through the unmodified library. Thorough: every obligation query is decided a second time (z3 4.8.12 / cvc5).',
+             'v2.5, lengths up to 6 (thorough: full) in every other version that has the datatype. A boundary grid of 142 literals x every version '
+             '(1 451 points) runs through the unmodified library. Thorough: every obligation query is decided a second time (z3 4.8.12 / cvc5).',
         note='strptime/strftime/int/Decimal/re.search are shims fed with CPython\'s own data and validated on every run against the '
              'real functions (260 cases); spellings CPython accepts outside the fixed-width forms are flagged lenient and not '
              'modelled in value; Decimal.__str__ (scientific notation for small magnitudes) is modelled exactly. Years below 1000, non-ASCII digits, longer strings are outside.',
